@@ -161,18 +161,26 @@ CHECKS = {
         technique="Coq proof (induction over pair lists, permutations, real arithmetic on option R) + vm_compute correspondence with a certified boolean checker and exact count / NaN masks",
         design="5/C13"),
     "C15": dict(
-        text=("Theorems (closed under the global context): crash_safe - after EVERY prefix of the primitive I/O sequence of "
+        text=("24 theorems (closed under the global context): crash_safe - after EVERY prefix of the primitive I/O sequence of "
               "save_cache (open backup, each write, close, rename), whatever the two files held, the cache file is the previous "
               "or the complete new document; history_safe / history_restart over all sequences of save / crash / restart; "
               "time_roundtrip - strptime(strftime(t)) = t for every datetime from datetime.min to datetime.max to the microsecond "
               "(digit-level model over the proved calendar), with the as-found unpadded %Y kept as asis_time_roundtrip_refuted; "
-              "save_load_roundtrip; malformed documents (wrong types, missing keys, null/short/bad times anywhere, truncation at any "
-              "byte given json rejects proper prefixes) leave the cache unchanged and warn - all or nothing, no invented times; "
-              "find_same_with_cache. Tie: child processes killed by os._exit after every single primitive over several prior "
-              "states, save histories, restart round trips, a corruption stream and real interpreter sessions with atexit, all "
-              "compared with the model evaluated in Coq."),
-        note=COMMON_NOTE + " POSIX rename atomicity (no fsync / power-failure model), the json module and glibc strftime/strptime are hypotheses exercised by the runs.",
-        technique="Coq proof (induction over crash prefixes and save histories; digit-level time codec round trip over the calendar) + vm_compute correspondence with crash injection in child processes",
+              "malformed documents (wrong types, missing keys, null/short/bad times anywhere) leave the cache unchanged and warn - "
+              "all or nothing, no invented times; find_same_with_cache. The json module is no longer a hypothesis: Model/C15_json.v "
+              "is a Gallina model of json.dump / json.load of CPython with default arguments (all escapes incl. surrogate pairs, "
+              "integers of any size, lists, dictionaries, null/true/false; floats outside), with json_roundtrip (load (dump v) = v "
+              "on the subset: no high surrogate directly before a low one, distinct keys) and json_prefix_free (NO proper prefix of "
+              "ANY dumped list is accepted, via json_load_accepts_closed_texts: everything json_load accepts has its strings and "
+              "brackets closed); save_load_roundtrip_json / crash_then_restart_json / history_restart_json / truncated_file_json "
+              "are the restart and truncation theorems with this codec and no codec hypothesis. Tie: child processes killed by "
+              "os._exit after every single primitive (incl. remove / unlink) over several prior states, save histories, restart "
+              "round trips, a corruption stream and real interpreter sessions with atexit, all compared with the model evaluated in "
+              "Coq; every written cache file is compared byte for byte with json_dump, and json.load's verdict and value with "
+              "json_load's on every truncation point, damaged file, foreign-style JSON text and every prefix of the written "
+              "documents."),
+        note=COMMON_NOTE + " POSIX rename atomicity (no fsync / power-failure model); CPython's json module is modelled (Model/C15_json.v) and compared byte for byte / verdict for verdict on every run, floats, the int() digit limit and the scanner's recursion limit excluded; glibc strftime/strptime is a digit-level model exercised by the runs.",
+        technique="Coq proof (induction over crash prefixes and save histories; digit-level time codec round trip over the calendar; recursive-descent JSON codec with round-trip and prefix-freeness (lexical balance) proofs) + vm_compute correspondence with crash injection in child processes and byte-exact comparison of the written files",
         design="5/C15"),
     "C19": dict(
         text=("coq/gen/scores.v (element-wise kernels of mape, bias, quantile_score) is REGENERATED from typhon/retrieval/scores.py on "
@@ -193,17 +201,25 @@ CHECKS = {
         technique="Coq proof over R on kernels translated from the source on every run (lra/nra, induction over samples, sub-gradient argument for both directions of the quantile characterisation) + interval enclosures + numeric law sweep",
         design="5/C19"),
     "C20": dict(
-        text=("Theorems (closed under the global context) in exact rational arithmetic, on the tile table TRANSLATED from "
+        text=("16 theorems (closed under the global context) in exact rational arithmetic, on the tile table TRANSLATED from "
               "SRTM30._tiles on every run: the table is well formed (27 disjoint tiles covering 60S-90N); for ANY rectangle inside "
               "the covered area get_native_grids yields non-empty consecutive cell centres covering the rectangle with less than "
               "one cell of margin (checker meaning proved); mosaic_cellwise - for any tile contents, entry [i,j] of the mosaic is "
               "the value of the unique tile pixel centred at (lat[i], lon[j]) across 1, 2, 4 or more tiles; get_tiles names exactly "
               "the intersecting tiles once; native grid of a tile's bounds = grid of the tile; download iff absent over every "
-              "request history; the as-found latitude arithmetic and -180 normalisation are kept as _refuted theorems. Tie: the "
-              "real SRTM30.elevation / get_tiles / get_grids / get_native_grids / get_tile on synthetic tile files with a "
-              "recording download stub, coordinates handed to Coq as the exact rationals of the doubles."),
-        note=COMMON_NOTE + " numpy trunc/arange/linspace/boolean-mask semantics and IEEE rounding in get_native_grids are modelled and bridged per case (guard band 1e-9 cell), not verified.",
-        technique="Coq proof (Z/Q arithmetic with lia, computation on the translated table lifted by lemmas) + vm_compute correspondence on synthetic tiles",
+              "request history; the as-found latitude arithmetic and -180 normalisation are kept as _refuted theorems. "
+              "robust_margin: block, mosaic and tile requests are unchanged when every corner is perturbed by up to 1/M degree "
+              "provided the corners are farther than 1/M degree from every cell edge (any M; the check uses 2^-40 degree), and "
+              "margin_hypothesis_needed shows the hypothesis is necessary. Tie: the real SRTM30.elevation / get_tiles / get_grids / "
+              "get_native_grids / get_tile on synthetic tile files with a recording download stub, coordinates handed to Coq as the "
+              "exact rationals of the doubles; in addition the binary64 computations of the implementation are repeated by an "
+              "executable Coq model on primitive floats (Model/C20_float.v, not a dependency of the theorems) and compared with the "
+              "running code bit for bit on every case (every returned coordinate, tiles in order, cells), including "
+              "non-representable corners (10.1, 1/3) and corners 1-4 ulps off cell edges and tile borders; wherever binary64 and "
+              "exact arithmetic select different cells the case must lie within 2^-40 degree of an edge (measured: only within "
+              "6e-14 degree), otherwise it is a failing input."),
+        note=COMMON_NOTE + " The binary64 model itself is tied by bit-exact comparison, not proved against the rational model outside the margin; numpy trunc/arange/linspace/boolean-mask semantics are modelled and exercised; within 2^-40 degree of a cell edge either neighbouring block is accepted (the literal statement can fail there by a few ulps of rounding, see DESIGN 11.2 'observed, not repaired').",
+        technique="Coq proof (Z/Q arithmetic with lia, computation on the translated table lifted by lemmas, perturbation margin) + vm_compute correspondence on synthetic tiles + executable binary64 reference model (PrimFloat) compared bit for bit",
         design="5/C20"),
     "C05": dict(
         text=("22 theorems (closed under the global context) about the model of collocate_filesets - find, the C03 file matching with "
